@@ -2,7 +2,45 @@
 use std::borrow::Cow;
 use std::io::Cursor;
 
-use grenad::{CursorVec, MergeFunction, Reader, Sorter, SorterBuilder, Writer};
+use grenad::{CursorVec, MergeFunction, Merger, Reader, Sorter, SorterBuilder, Writer};
+
+/// hands one of its inputs back as it came (`Cow::Borrowed` when the merger lent it borrowed)
+struct KeepFirst;
+impl MergeFunction for KeepFirst {
+    type Error = std::convert::Infallible;
+    fn merge<'a>(&self, _k: &[u8], vs: &[Cow<'a, [u8]>]) -> Result<Cow<'a, [u8]>, Self::Error> {
+        Ok(vs[0].clone())
+    }
+}
+
+/// the values a merger yields stay valid while the caller holds them, also when they are borrowed from a
+/// source whose block is replaced right after (last entry of a block / of a source)
+fn merger_case() {
+    let mut srcs = Vec::new();
+    for s in 0..3u32 {
+        let mut w = Writer::builder();
+        w.verif_block_size_unclamped(48);
+        let mut w = w.memory();
+        for i in 0..24u32 {
+            if (i + s) % 3 != 0 {
+                w.insert(i.to_be_bytes(), [(i + s) as u8; 5]).unwrap();
+            }
+        }
+        srcs.push(Reader::new(Cursor::new(w.into_inner().unwrap())).unwrap().into_cursor().unwrap());
+    }
+    let mut b = Merger::builder(KeepFirst);
+    b.extend(srcs);
+    let mut it = b.build().into_stream_merger_iter().unwrap();
+    let mut n = 0u32;
+    while let Some((k, v)) = it.next().unwrap() {
+        // read every byte that was handed out
+        let s: u32 = k.iter().chain(v.iter()).map(|b| *b as u32).sum();
+        assert!(s < 100_000);
+        assert_eq!(v.len(), 5);
+        n += 1;
+    }
+    assert_eq!(n, 24);
+}
 
 struct Concat;
 impl MergeFunction for Concat {
@@ -69,5 +107,6 @@ fn main() {
     sorter_case(70, 70, false, &[1, 2, 30, 3]);
     sorter_case(100, 23, true, &[5, 50, 9, 70, 1]);
     reader_case();
+    merger_case();
     println!("miri-scenarios-ok");
 }
